@@ -203,7 +203,7 @@ def r1(ctx, classes=None):
         ctx.ob(f"{Q}:class#{i}", True, "option class decided", loc)
 
 
-@rule("R-C10-2", min_instances=2, title="handshake(): exactly one write, of the CRLF-joined header list, before the first read")
+@rule("R-C10-2", min_instances=4, title="handshake(): exactly one write, of the CRLF-joined header list, before the first read")
 def r2(ctx):
     idx = ctx.index
 
@@ -221,6 +221,28 @@ def r2(ctx):
     I = Interp(idx, Config(stubs=stubs))
     q = "_handshake:handshake"
     outs = ctx.count_paths(I.explore(lambda run: I.call(run, I.make_fn(run, q), [Sym("sock", "obj"), C("ws://h/"), Sym("host", "str"), C(80), Sym("res", "str")], {}, None)))
+    # the same with trace logging on and credential-bearing lines: what is logged is the log's business, what is written is the request
+    def gh2(I, run, args, kwargs, node):
+        return Tup((new_list(run, [C("GET / HTTP/1.1"), C("Cookie: sid=1"), C("Authorization: Basic abc"), C("Proxy-Authorization: Basic xyz"), Sym("l1", "str"), C(""), C("")]),
+                    Sym("key", "str")))
+    want2 = "GET / HTTP/1.1\r\nCookie: sid=1\r\nAuthorization: Basic abc\r\nProxy-Authorization: Basic xyz\r\n{<l1>}\r\n\r\n"
+    for trace_on in (False, True):
+        st2 = dict(stubs)
+        st2["_handshake:_get_handshake_headers"] = gh2
+        st2["_logging:isEnabledForTrace"] = lambda I, run, a, k, n, t=trace_on: TRUE if t else FALSE
+        st2["_logging:trace"] = lambda *a: NONE
+        I2 = Interp(idx, Config(stubs=st2, trace_enabled=trace_on))
+        outs2 = ctx.count_paths(I2.explore(lambda run: I2.call(run, I2.make_fn(run, q), [Sym("sock", "obj"), C("ws://h/"), Sym("host", "str"), C(80), Sym("res", "str")], {}, None)))
+        bad = None
+        for o in outs2:
+            sends = [e for e in o.effects if e.name == "send"]
+            t = template_text(sends[0].args[1]) if len(sends) == 1 else None
+            if t != want2:
+                bad = bad or (o, t)
+        ctx.ob(f"{q}:request-independent-of-trace:trace={'on' if trace_on else 'off'}", bad is None and bool(outs2),
+               "the request written carries the header lines as built (credentials included)" if bad is None else
+               f"with trace logging {'on' if trace_on else 'off'} the request written is {bad[1]!r}, not the header lines that were built: preparing the log text changed what is sent",
+               ctx.index.loc(ctx.index.func(q).node), {"path": path_text(bad[0])} if bad else None)
     for i, o in enumerate(outs):
         names = [e.name for e in o.effects]
         sends = [e for e in o.effects if e.name == "send"]
